@@ -61,6 +61,20 @@ pub struct Case {
     pub post: Vec<SideOp>,
     pub entry: Entry,
     pub place: Place,
+    /// a second, related request proved on the same instance right after the first one
+    #[serde(default)]
+    pub second: Option<Second>,
+}
+
+#[derive(Clone, Debug, Serialize, Deserialize)]
+pub enum Second {
+    /// same member, epoch and message id, another signal
+    OtherSignal(crate::gens::Bytes),
+    /// same member and epoch, another message id below the limit
+    OtherMessageId(u16),
+    /// same member, another external nullifier
+    OtherEpoch(Fx),
+    Same,
 }
 
 fn side_value(i: u8) -> Fr {
@@ -174,8 +188,15 @@ pub fn case_strategy(entries: Vec<Entry>) -> BoxedStrategy<Case> {
         proptest::collection::vec(side_op(), 0..4),
         (0..n).prop_map(move |i| entries[i]),
         prop_oneof![3 => Just(Place::SetLeaf), 1 => Just(Place::SetLeavesFrom), 1 => Just(Place::NextLeafIfPossible)],
+        prop_oneof![
+            5 => Just(None),
+            1 => crate::gens::bytes(300).prop_map(|b| Some(Second::OtherSignal(b))),
+            1 => any::<u16>().prop_map(|m| Some(Second::OtherMessageId(m))),
+            1 => crate::gens::fx().prop_map(|e| Some(Second::OtherEpoch(e))),
+            1 => Just(Some(Second::Same)),
+        ],
     )
-        .prop_map(|(req, pre, post, entry, place)| Case { req, pre, post, entry, place })
+        .prop_map(|(req, pre, post, entry, place, second)| Case { req, pre, post, entry, place, second })
         .boxed()
 }
 
@@ -345,6 +366,35 @@ pub fn run_case(c: &Case, o: &mut Outcome) {
         Ok(msg) => check_accepted(&r, &m, c, &msg, o),
         Err(e) => vfail!(o, "{e} [entry {:?}, index {}, limit {:?}, mid {:?}]", c.entry, c.req.index, c.req.limit, c.req.mid),
     }
+    // a second, related request on the same instance: nothing may be carried over from the first
+    if let (false, Some(sec)) = (o.failed(), &c.second) {
+        let mut c2 = c.clone();
+        c2.second = None;
+        match sec {
+            Second::OtherSignal(b) => c2.req.signal = b.clone(),
+            Second::OtherMessageId(raw) => {
+                use num_traits::ToPrimitive;
+                let limit = c.req.limit.big().to_u64().unwrap_or(1).max(1);
+                let mut mid = (*raw as u64) % limit;
+                if Fx::from_u64(mid) == c.req.mid {
+                    mid = (mid + 1) % limit;
+                }
+                c2.req.mid = Fx::from_u64(mid);
+            }
+            Second::OtherEpoch(e) => c2.req.e = *e,
+            Second::Same => {}
+        }
+        o.label("second-related-request-on-the-same-instance");
+        match prove_via(&mut r, &m, &c2) {
+            Ok(msg) => {
+                check_accepted(&r, &m, &c2, &msg, o);
+                if let Some(f) = o.fail.take() {
+                    vfail!(o, "second request on the same instance ({sec:?}): {f}");
+                }
+            }
+            Err(e) => vfail!(o, "second request on the same instance ({sec:?}): {e}"),
+        }
+    }
     let t3 = t0.elapsed();
     drop(r);
     if timing {
@@ -358,7 +408,7 @@ impl Property for C01 {
         "C01"
     }
     fn rule(&self) -> String {
-        "(secret, leaf index, limit, message id, external nullifier, signal, tree history, entry point): field values boundary-weighted, index from {0, 1, 2^19-1, 2^19, 2^20-2, 2^20-1, right half, uniform}, limit from {1, 2, 100, 65535, 65536, uniform}, message id from {0, limit-1, uniform}, signals of length 0..12000 incl. Keccak block edges; 0..3 tree operations (set/delete/range write/removal-only batch on the sibling, the other half, neighbours, first/last, uniform positions, and reads of the prover's own membership path) before and after the rate commitment is placed (set_leaf, set_leaves_from or set_next_leaf); four entry points (tree state, caller-supplied witness, raw prove with independently assembled witness and values, externally computed witness vector from the reference generator). \
+        "(secret, leaf index, limit, message id, external nullifier, signal, tree history, entry point): field values boundary-weighted, index from {0, 1, 2^19-1, 2^19, 2^20-2, 2^20-1, right half, uniform}, limit from {1, 2, 100, 65535, 65536, uniform}, message id from {0, limit-1, uniform}, signals of length 0..12000 incl. Keccak block edges; 0..3 tree operations (set/delete/range write/removal-only batch on the sibling, the other half, neighbours, first/last, uniform positions, and reads of the prover's own membership path) before and after the rate commitment is placed (set_leaf, set_leaves_from or set_next_leaf); four entry points (tree state, caller-supplied witness, raw prove with independently assembled witness and values, externally computed witness vector from the reference generator); 4 in 9 cases prove a second, related request on the same instance right afterwards (another signal / message id / external nullifier / the same request again). \
          Oracle: proving succeeds; verify, verify_rln_proof, verify_with_roots with [root], [r1,root,r2] and the empty set all accept; published values equal the reference formulas on the ideal tree. non-trivial = index >= 2^19, mid in {0, limit-1}, limit in {1, 2^16}, a boundary field value, or signal length 0 or >= 136; distinct by case content".into()
     }
     fn assumptions(&self) -> Vec<String> {
